@@ -443,8 +443,8 @@ func c11SingleLoad(c *core.Ctx) {
 			return true
 		})
 	})
-	c.RequireCount("R-C11-1", "mux.inst.Load call sites", nLoads, 3)
-	c.RequireCount("R-C11-1", "mux.inst.Store call sites", nStores, 2)
+	c.RequireCount("R-C11-1", "Load call sites of the generation pointer", nLoads, 1)
+	c.RequireCount("R-C11-1", "Store call sites of the generation pointer", nStores, 1)
 	if badUse == 0 {
 		c.Discharge("R-C11-1", hs+".mux.inst|accessed only by Load/Store", c.Prog.Rel(instF.Pos()), sprintf("%d uses of %s.%s, all receivers of atomic.Value Load/Store", uses, muxN, instF.Name()))
 	}
@@ -461,6 +461,7 @@ func c11SingleLoad(c *core.Ctx) {
 	loaders := c11Loaders(pkg, decls, instF)
 	loadCnt := c11NewCounter(c, pkg, decls, func(g *flow.Func, call *ast.CallExpr) bool { return c11FieldCall(g, call, instF, "Load") })
 	dispCnt := c11NewCounter(c, pkg, decls, func(g *flow.Func, call *ast.CallExpr) bool { return g.Callee(call) == serveInst })
+	c.RequireCount("R-C11-1", "generation Load sites in the call tree of ServeHTTP", len(loadCnt.sites(r.serve)), 1)
 	dispatch := dispCnt.sites(r.serve)
 	var top []reachCall // dispatch sites outside the instance's own call tree
 	below := c11Reach(pkg, decls, serveInst)
@@ -489,6 +490,9 @@ func c11SingleLoad(c *core.Ctx) {
 				why = "the " + miN + " that serves the request is not the value returned by this request's Load of the generation pointer"
 			}
 			for _, a := range d.Call.Args {
+				if a == c11Subject(d.Fn, d.Call) {
+					continue
+				}
 				if tv, has := info.Types[a]; has && c11TypeReaches(tv.Type, muxT) != nil {
 					ok, why = false, "the mux itself is handed to the instance's request method: the request path can load the generation pointer a second time"
 				}
@@ -551,13 +555,11 @@ func c11SingleLoad(c *core.Ctx) {
 		}
 		tcPkg := c.Prog.Pkg("pkg/object/trafficcontroller")
 		tcDecls := c11DeclOf(tcPkg)
+		_ = maps
+		regs := c11Registries(c)
 		isAcc := func(g *flow.Func, call *ast.CallExpr) bool {
-			for _, m := range maps {
-				if c11FieldCall(g, call, m) {
-					return true
-				}
-			}
-			return false
+			_, ok := c11RegCall(g, call, regs)
+			return ok
 		}
 		cnt := c11NewCounter(c, tcPkg, tcDecls, isAcc)
 		ghObj, _ := tcPkg.TypesInfo.Defs[gh.Node.(*ast.FuncDecl).Name].(*types.Func)
@@ -655,15 +657,29 @@ func c11OnlyFromLoad(f *flow.Func, id *ast.Ident, instF *types.Var, loaders map[
 // c11FromLoad: the receiver of call is (a type assertion of) the generation Load, a call of
 // a loader helper, or a local variable only ever assigned from one of these.
 func c11FromLoad(f *flow.Func, call *ast.CallExpr, instF *types.Var, loaders map[*types.Func]bool) bool {
-	sel, ok := ast.Unparen(call.Fun).(*ast.SelectorExpr)
-	if !ok {
+	subj := c11Subject(f, call)
+	if subj == nil {
 		return false
 	}
-	if c11IsLoadExpr(f, sel.X, instF, loaders) {
+	if c11IsLoadExpr(f, subj, instF, loaders) {
 		return true
 	}
-	id, ok := ast.Unparen(sel.X).(*ast.Ident)
+	id, ok := ast.Unparen(subj).(*ast.Ident)
 	return ok && c11OnlyFromLoad(f, id, instF, loaders)
+}
+
+// c11Subject is the object a call works on: the receiver of a method call, the first
+// argument of a plain function call (a method turned into a function).
+func c11Subject(f *flow.Func, call *ast.CallExpr) ast.Expr {
+	if sel, ok := ast.Unparen(call.Fun).(*ast.SelectorExpr); ok {
+		if s := f.Info.Selections[sel]; s != nil && s.Kind() == types.MethodVal {
+			return sel.X
+		}
+	}
+	if len(call.Args) > 0 {
+		return call.Args[0]
+	}
+	return nil
 }
 
 // ---------------------------------------------------------------------------------------
@@ -909,8 +925,10 @@ func c11MuxImmutable(c *core.Ctx) {
 		}
 	}
 	c11RuntimeReload(c, r, decls, sites)
-	c.RequireCount("R-C11-2", "stores through fields of muxInstance/muxRule/MuxPath/route", nStores, 2)
-	c.RequireCount("R-C11-2", "mux.inst.Store publication sites", nPub, 2)
+	// stores may legitimately all live in composite literals (then there is nothing to order);
+	// the subject that must exist is the publication
+	c.Stats["R-C11-2:stores through fields of generation types"] = nStores
+	c.RequireCount("R-C11-2", "generation Store publication sites", nPub, 1)
 }
 
 // c11RuntimeReload: every update event reaches the router — on every returning path of the
@@ -921,19 +939,23 @@ func c11RuntimeReload(c *core.Ctx, r *c11Router, decls map[*types.Func]*ast.Func
 	// role: methods of the mux type that Store a new generation
 	var reloads []*types.Func
 	for o, fd := range decls {
-		if c11RecvName(o) != r.muxT.Obj().Name() {
-			continue
-		}
 		f := flow.NewFunc(pkg, fd)
 		for _, call := range calls(fd.Body, true) {
-			if c11FieldCall(f, call, r.instF, "Store") {
-				reloads = append(reloads, o)
-				break
+			if !c11FieldCall(f, call, r.instF, "Store") {
+				continue
+			}
+			// the mux is handed in (receiver or parameter): an update of an existing mux, not its construction
+			if root := c11RootIdent(c11Recv(call)); root != nil {
+				if _, isParam := c11ParamIndex(f.Info, fd, f.Info.Uses[root]); isParam {
+					reloads = append(reloads, o)
+					break
+				}
 			}
 		}
 	}
+	sort.Slice(reloads, func(i, j int) bool { return reloads[i].Pos() < reloads[j].Pos() })
 	if len(reloads) == 0 {
-		c.Errorf("R-C11-2: anchor: no method of %s publishes a new generation", r.muxT.Obj().Name())
+		c.Errorf("R-C11-2: anchor: no function publishes a new generation into an existing %s", r.muxT.Obj().Name())
 		return
 	}
 	isReload := func(o types.Object) bool {
